@@ -276,8 +276,8 @@ class _Inliner:
                             cur = []
                         out.extend(pre)
                         rr = SX.strip(rexp)
-                        if not path and SX.is_node(rr) and rr.get('k') == 'ref' and rr.get('kind') in ('var', None) and str(rr.get('id', '')).endswith('@%d' % self.serial) is not None \
-                                and '@' in str(rr.get('id', '')) and _base_type(rr.get('t')) == _base_type(v.get('type')) and not (v.get('type') or '').rstrip().endswith('&'):
+                        if not path and SX.is_node(rr) and rr.get('k') == 'ref' and rr.get('kind') in ('var', None) and '@' in str(rr.get('id', '')) \
+                                and _base_type(rr.get('t')) == _base_type(v.get('type')) and not (v.get('type') or '').rstrip().endswith('&'):
                             # nrvo: the declared variable is the helper's returned local
                             self.renames[v['id']] = rr['id']
                             continue
@@ -341,6 +341,7 @@ def _rename_refs(n, ren):
         return n
     out = {k: _rename_refs(v, ren) for k, v in n.items()}
     if out.get('k') == 'ref' and out.get('id') in ren:
+        out['was'] = out.get('name')
         out['id'] = ren[out['id']]
     return out
 
@@ -436,7 +437,7 @@ def _copyprop(body):
         init = SX.strip(v.get('init')) if SX.is_node(v.get('init')) else None
         if not (init is not None and init.get('k') == 'ref' and init.get('kind') == 'var' and init.get('id')):
             continue
-        if _base_type(v.get('type')) not in SCALARS or (v.get('type') or '').rstrip().endswith('&') or v.get('from_param'):
+        if _base_type(v.get('type')) not in SCALARS or (v.get('type') or '').rstrip().endswith('&'):
             continue
         if v['id'] in allw:
             continue
@@ -453,7 +454,7 @@ def _copyprop(body):
     return nb, len(ren)
 
 
-def normalise(prog, f, depth=2):
+def normalise(prog, f, depth=3):
     """f with helpers inlined, returned records scalarised and trivial copies removed; f itself when nothing applies"""
     cache = getattr(prog, '_normalised', None)
     if cache is None:
